@@ -6,10 +6,16 @@ pub struct OsFile { _p: u8 }
 impl OsFile {
     pub uninterp spec fn content(&self) -> Seq<u8>;
     pub uninterp spec fn durable_len(&self) -> int;
+    // the descriptor was opened with O_APPEND. On Linux pwrite() on such a descriptor IGNORES the offset
+    // and appends at the end of the file (pwrite(2), BUGS) - the positional contract below holds only
+    // for descriptors opened without it
+    pub uninterp spec fn append_mode(&self) -> bool;
     // std::os::unix::fs::FileExt::write_all_at
     #[verifier::external_body]
     pub fn write_all_at(&mut self, buf: &Bytes, offset: u64) -> (r: Result<(), VErr>)
+        requires !old(self).append_mode()
         ensures
+            final(self).append_mode() == old(self).append_mode(),
             // nothing outside [offset, offset+len) changes, whether the call succeeds or not
             forall|i: int| 0 <= i < old(self).content().len() && !(offset <= i < offset + buf@.len()) ==> #[trigger] final(self).content()[i] == old(self).content()[i],
             final(self).content().len() >= old(self).content().len(),
@@ -20,7 +26,7 @@ impl OsFile {
     { unimplemented!() }
     #[verifier::external_body]
     pub fn sync_all(&mut self) -> (r: Result<(), VErr>)
-        ensures final(self).content() == old(self).content(),
+        ensures final(self).content() == old(self).content(), final(self).append_mode() == old(self).append_mode(),
             r.is_ok() ==> final(self).durable_len() == old(self).content().len(),
             r.is_err() ==> final(self).durable_len() == old(self).durable_len(),
     { unimplemented!() }
@@ -56,3 +62,20 @@ impl Creator {
         ensures wd_bytes(r.0) == self.bytes_at(offset), wd_bytes(r.0).len() == self.len_spec(), r.1.blob_offset == offset
     { unimplemented!() }
 }
+
+// tokio::fs::OpenOptions as configured by the `setup` closure of File::from_file
+pub struct OpenMode { pub create: bool, pub append: bool }
+// setup(&mut OpenOptions::new()).open(path) + try_into_std(): the descriptor has the configured mode;
+// metadata().len() is the current length of the file
+#[verifier::external_body]
+pub fn os_open(mode: OpenMode) -> (r: Result<OsFile, VErr>)
+    ensures r.is_ok() ==> r->Ok_0.append_mode() == mode.append && r->Ok_0.durable_len() == r->Ok_0.content().len()
+{ unimplemented!() }
+#[verifier::external_body]
+pub fn os_len(f: &OsFile) -> (r: Result<u64, VErr>) ensures r.is_ok() ==> r->Ok_0 == f.content().len() { unimplemented!() }
+// flock(LOCK_EX | LOCK_NB) on the descriptor
+#[verifier::external_body]
+pub fn file_already_locked(f: &OsFile) -> (r: bool) { unimplemented!() }
+// a deliberate `panic!` (the blob file is locked by another process): the call does not return
+#[verifier::external_body]
+pub fn deliberate_panic() -> ! { loop { } }
